@@ -194,6 +194,43 @@ func buildGraph(n int, slots []int, filler int, extra *rng) *GNode {
 	return nodes[0]
 }
 
+// pointers the encoder follows but which are no containers: a node type with a *time.Time field
+// in front of its pointer fields (a timestamp reached through a pointer is written as a plain
+// date and takes no reference ordinal, on either side)
+type SNode struct {
+	Id   int32
+	When *time.Time
+	L    *SNode
+	R    *SNode
+	Kids []*SNode
+}
+
+func genStamped(seed uint64, n int) *SNode {
+	r := newRng(seed, "stamped")
+	nodes := make([]*SNode, n)
+	for i := range nodes {
+		nodes[i] = &SNode{Id: int32(i)}
+		if r.intn(3) != 0 {
+			t := time.Unix(1600000000+int64(r.intn(100000)), int64(r.intn(1000))*1000000)
+			nodes[i].When = &t
+		}
+	}
+	pick := func() *SNode {
+		k := r.intn(n + 1)
+		if k == n {
+			return nil
+		}
+		return nodes[k]
+	}
+	for _, nd := range nodes {
+		nd.L, nd.R = pick(), pick()
+		for k := r.intn(3); k > 0; k-- {
+			nd.Kids = append(nd.Kids, pick())
+		}
+	}
+	return nodes[0]
+}
+
 func genGraph(seed uint64, n int, withContainers bool) interface{} {
 	r := newRng(seed, "graph")
 	slots := make([]int, 2*n)
@@ -328,7 +365,7 @@ func c04CorrCap(c *ctx) int {
 // classifier of known findings
 func c04Class(want, got string) string { return "" }
 
-func c04Check(c *ctx, root *GNode, in map[string]interface{}) {
+func c04Check(c *ctx, root interface{}, in map[string]interface{}) {
 	want := graphCanon(root)
 	bs, dec, eo, do, msg := publicRoundTrip(root)
 	if eo != oOK {
@@ -360,6 +397,10 @@ func runC04(c *ctx) {
 			c04PoolCheck(c, int(in["code"].(float64)))
 			return
 		}
+		if in["op"] == "graph-stamped" {
+			c04Check(c, genStamped(uint64(in["gseed"].(float64)), int(in["n"].(float64))), in)
+			return
+		}
 		if in["op"] == "graph-exhaustive" {
 			n := int(in["n"].(float64))
 			var slots []int
@@ -374,7 +415,7 @@ func runC04(c *ctx) {
 		}
 		return
 	}
-	c.rule = "pointer graphs over a node type with two pointer fields, a slice-of-pointer and a map-of-pointer field, plus pools in which a list of structs, pointers to its elements, sub-lists of it, a struct and a pointer to its first field share addresses; each preceded by filler fields (nil/empty map, zero/compact/millisecond timestamp, string, bytes, nil slice): EXHAUSTIVELY every assignment of the 2n pointer slots to {nil,n0..} for n<=3 nodes (n<=4 in the thorough tier) x 8 filler configurations, plus random graphs up to 200 nodes with shared slice elements and map values; oracle: canonical rooted-graph form (pointer identity classes + contents) of decode(encode(g)) equals that of g. Distinct by (n, slots, filler) or seed; non-trivial = at least one non-nil pointer."
+	c.rule = "pointer graphs over a node type with two pointer fields, a slice-of-pointer and a map-of-pointer field, plus pools in which a list of structs, pointers to its elements, sub-lists of it, a struct and a pointer to its first field share addresses; each preceded by filler fields (nil/empty map, zero/compact/millisecond timestamp, string, bytes, nil slice): EXHAUSTIVELY every assignment of the 2n pointer slots to {nil,n0..} for n<=3 nodes (n<=4 in the thorough tier) x 8 filler configurations, plus random graphs up to 200 nodes with shared slice elements and map values, plus graphs over a node type with a *time.Time field (a pointer the encoder follows that is no container); oracle: canonical rooted-graph form (pointer identity classes + contents) of decode(encode(g)) equals that of g. Distinct by (n, slots, filler) or seed; non-trivial = at least one non-nil pointer."
 	maxN := 3
 	if c.tier == "thorough" {
 		maxN = 4
@@ -441,5 +482,18 @@ func runC04(c *ctx) {
 		c.dist["random_graphs"]++
 		in := map[string]interface{}{"op": "graph-random", "gseed": seed, "n": n}
 		c04Check(c, genGraph(seed, n, true).(*GNode), in)
+	}
+	// timestamps behind pointers in front of shared pointers
+	sn := 300
+	if c.tier == "thorough" {
+		sn = 10000
+	}
+	for i := 0; i < sn; i++ {
+		seed := c.seed*389 + uint64(i)
+		n := 2 + int(seed%7)
+		c.eval(fmt.Sprint("s", seed, ":", n))
+		c.dist["stamped_graphs"]++
+		in := map[string]interface{}{"op": "graph-stamped", "gseed": seed, "n": n}
+		c04Check(c, genStamped(seed, n), in)
 	}
 }
